@@ -5,6 +5,8 @@
 -/
 import Synphot.Lemmas.Spectrum
 import Synphot.Lemmas.Trapz
+import Synphot.Lemmas.C05x
+import Synphot.Lemmas.C13x
 
 set_option linter.unusedSectionVars false
 set_option linter.unusedVariables false
@@ -111,5 +113,407 @@ theorem setZ_zero_restores (s : ZState K) (m : Tree K) : (s.setZ 0).model m = .o
 example : ([ZOp.setZ (1 : ℚ), .setZType .conserveFlux].foldl applyOp (ZState.init 0 .wavelengthOnly)).fluxScale
     = some (1 / 2) := by
   simp [applyOp, ZState.setZ, ZState.setZType, ZState.init]; norm_num
+
+/-! ## second round: composites, already-redshifted operands, integrals on any grid, histories with
+queries, the inverse redshift, positivity -/
+open Synphot.C05x Synphot.C13x
+
+/-- **the sampling law in one statement**, both redshift types, every model tree (leaf, composite,
+already redshifted), errors of the rest-frame evaluation included: the spectrum sampled at `L` is the
+rest-frame spectrum at `L/(1+z)` times the flux factor of the type (`1`, or `1/(1+z)`) -/
+theorem sample_law (E : Env K) (z : K) (t : ZType) (m : Tree K) (x : K) :
+    sampleAt E (ZState.init z t) m x = (m.eval E (x / (1 + z))).map (· * fluxFactor t z) := by
+  unfold sampleAt
+  rw [model_init]
+  exact eval_modelTree E z t m x
+
+/-- **already-redshifted operand**: a source built from another source's redshifted model, with a
+further redshift on top, samples the innermost model at `L/((1+z₁)(1+z₂))` — redshifts compose by the
+product of their factors — with the product of the two flux factors; all four type combinations -/
+theorem redshift_compose (E : Env K) (z1 z2 : K) (t1 t2 : ZType) (m m1 : Tree K) (x : K)
+    (h : (ZState.init z1 t1).model m = .ok m1) :
+    sampleAt E (ZState.init z2 t2) m1 x =
+      (m.eval E (x / ((1 + z1) * (1 + z2)))).map (· * (fluxFactor t1 z1 * fluxFactor t2 z2)) := by
+  rw [model_init] at h; cases h
+  rw [sample_law, eval_modelTree, map_map_mul, div_div, mul_comm (1 + z2) (1 + z1)]
+
+/-- the same at the level of spectrum objects: `SourceSpectrum(sp.model, z=z₂, z_type=t₂)` for a source
+`sp` that carries `(z₁, t₁)` -/
+theorem wrap_redshifted_source (E : Env K) (s r : Spec K) (z1 z2 : K) (t1 t2 : ZType) (x : K)
+    (hk : s.kind = .source) (hs : s.zs = ZState.init z1 t1) (h : wrapZ s z2 t2 = .ok r) :
+    r.evalAt E x =
+      (s.tree.eval E (x / ((1 + z1) * (1 + z2)))).map (· * (fluxFactor t1 z1 * fluxFactor t2 z2)) := by
+  unfold wrapZ at h
+  obtain ⟨m1, hm1, h⟩ := bind_ok h
+  cases h
+  have hm : (ZState.init z1 t1).model s.tree = .ok m1 := by
+    simpa [Spec.model, hk, hs] using hm1
+  have := redshift_compose E z1 z2 t1 t2 s.tree m1 x hm
+  simpa [Spec.evalAt, Spec.model, sampleAt] using this
+
+/-- **composite operand**: the redshift attributes assigned on the result of any admitted operator
+(`sp.z_type = t; sp.z = z` on `a <op> b`, whose parts may carry redshifts of their own): the composite
+sampled at `L` is the operator applied to the operands' values at `L/(1+z)`, times the flux factor -/
+theorem redshift_of_composite (E : Env K) (op : BinOp) (self : Spec K) (o : Operand K) (r : Spec K)
+    (z : K) (t : ZType) (x va vb v : K)
+    (h : specOp op self o = .ok r) (hk : r.kind = .source)
+    (ha : self.evalAt E (x / (1 + z)) = .ok va) (hb : o.valueAt E (x / (1 + z)) = .ok vb)
+    (hv : op.apply va vb = .ok v) :
+    (assignZ r z t).evalAt E x = .ok (v * fluxFactor t z) := by
+  have hr := specOp_valueAt E op self o r _ va vb v h ha hb hv
+  obtain ⟨k, tr, _, _, rfl⟩ := specOp_ok h
+  rw [ofTree_evalAt] at hr
+  have hk' : k = .source := hk
+  subst hk'
+  have : (assignZ (Spec.ofTree .source tr) z t).evalAt E x = sampleAt E (ZState.init z t) tr x := by
+    simp [assignZ, Spec.evalAt, Spec.model, Spec.ofTree, sampleAt, setZType_setZ]
+  rw [this, sample_law, hr]
+  rfl
+
+/-- the optimal sampling set is the rest-frame set multiplied by `1+z` for **every** `z` (at `z = 0`
+the factor is 1) and every model tree — composites and already-redshifted models included -/
+theorem sampleset_redshift_any_z (thr z : K) (t : ZType) (m mt : Tree K)
+    (h : (ZState.init z t).model m = .ok mt) :
+    mt.sampleset thr = (m.sampleset thr).map (fun w => w.map (· * (1 + z))) := by
+  rw [model_init] at h; cases h
+  exact sampleset_modelTree thr z t m
+
+/-- the sampling set of a redshifted **composite** is the merged set of the components times `1+z` -/
+theorem sampleset_redshift_composite (thr z : K) (t : ZType) (op : BinOp) (l r mt : Tree K)
+    (h : (ZState.init z t).model (.bin op l r) = .ok mt) :
+    mt.sampleset thr =
+      (mergeWavelengths thr (l.sampleset thr) (r.sampleset thr)).map (fun w => w.map (· * (1 + z))) :=
+  sampleset_redshift_any_z thr z t _ mt h
+
+/-- the sampling set of an **already-redshifted** source redshifted again is the rest-frame set times
+`(1+z₁)(1+z₂)` -/
+theorem sampleset_redshift_compose (thr z1 z2 : K) (t1 t2 : ZType) (m m1 m2 : Tree K)
+    (h1 : (ZState.init z1 t1).model m = .ok m1) (h2 : (ZState.init z2 t2).model m1 = .ok m2) :
+    m2.sampleset thr = (m.sampleset thr).map (fun w => w.map (· * ((1 + z1) * (1 + z2)))) := by
+  rw [sampleset_redshift_any_z thr z2 t2 m1 m2 h2, sampleset_redshift_any_z thr z1 t1 m m1 h1]
+  cases m.sampleset thr with
+  | none => rfl
+  | some w => simp [List.map_map]
+
+/-- for `1+z > 0` the redshifted sampling set stays positive and strictly increasing -/
+theorem sampleset_redshift_valid (z : K) (hz : 0 < 1 + z) (w : List K) (hp : ∀ x ∈ w, 0 < x)
+    (hs : StrictAsc w) :
+    (∀ x ∈ w.map (· * (1 + z)), 0 < x) ∧ StrictAsc (w.map (· * (1 + z))) :=
+  ⟨pos_map_mul (1 + z) hz w hp, strictAsc_map_mul (1 + z) hz w hs⟩
+
+/-- hence `waveset` of the redshifted spectrum — refusals included — is the rest-frame `waveset` times
+`1+z`: a redshift (or blueshift, `z > −1`) never turns a valid set into a refused one or back -/
+theorem waveset_redshift (thr z : K) (hz : 0 < 1 + z) (t : ZType) (m mt : Tree K)
+    (h : (ZState.init z t).model m = .ok mt) :
+    mt.waveset thr = (m.waveset thr).map (fun o => o.map (fun w => w.map (· * (1 + z)))) := by
+  unfold Tree.waveset
+  rw [sampleset_redshift_any_z thr z t m mt h]
+  cases hs : m.sampleset thr with
+  | none => rfl
+  | some w =>
+    simp only [Option.map_some, validate_map_mul (1 + z) hz w]
+    cases validateWavelengths w <;> rfl
+
+/-- the wavelength map itself: `L ↦ L/(1+z)` keeps wavelengths positive and in order -/
+theorem rest_wavelength_pos_mono (z : K) (hz : 0 < 1 + z) (x y : K) :
+    (0 < x → 0 < x / (1 + z)) ∧ (x < y → x / (1 + z) < y / (1 + z)) :=
+  ⟨fun h => div_pos h hz, fun h => div_lt_div_of_pos_right h hz⟩
+
+/-- **flux conservation on any sampling grid**: whatever grid `w` the rest-frame model is sampled on
+(values `ys`), the `conserve_flux` spectrum sampled on the grid `w·(1+z)` has the values `ys/(1+z)`
+and the same trapezoid integral -/
+theorem integral_conserved_any_grid (E : Env K) (z : K) (hz : 1 + z ≠ 0) (m mt : Tree K)
+    (w ys : List K) (hm : (ZState.init z .conserveFlux).model m = .ok mt)
+    (hy : w.mapM (m.eval E) = .ok ys) :
+    (w.map (· * (1 + z))).mapM (mt.eval E) = .ok (ys.map (· * (1 / (1 + z)))) ∧
+    trapzXY (w.map (· * (1 + z))) (ys.map (· * (1 / (1 + z)))) = trapzXY w ys := by
+  rw [model_init] at hm; cases hm
+  constructor
+  · refine mapM_transport (· * (1 + z)) (1 / (1 + z)) ?_ hy
+    intro x
+    rw [eval_modelTree, mul_div_assoc, div_self hz, mul_one]
+    rfl
+  · rw [trapzXY_scale]; field_simp
+
+/-- `wavelength_only` does not conserve: on the same pair of grids the values are unchanged and the
+trapezoid integral is multiplied by `1+z` -/
+theorem integral_wavelength_only_scales (E : Env K) (z : K) (hz : 1 + z ≠ 0) (m mt : Tree K)
+    (w ys : List K) (hm : (ZState.init z .wavelengthOnly).model m = .ok mt)
+    (hy : w.mapM (m.eval E) = .ok ys) :
+    (w.map (· * (1 + z))).mapM (mt.eval E) = .ok ys ∧
+    trapzXY (w.map (· * (1 + z))) ys = (1 + z) * trapzXY w ys := by
+  rw [model_init] at hm; cases hm
+  have h1 : (w.map (· * (1 + z))).mapM ((modelTree z .wavelengthOnly m).eval E) =
+      .ok (ys.map (· * (1 : K))) := by
+    refine mapM_transport (· * (1 + z)) 1 ?_ hy
+    intro x
+    rw [eval_modelTree, mul_div_assoc, div_self hz, mul_one]
+    rfl
+  have h2 : ys.map (· * (1 : K)) = ys := by simp
+  rw [h2] at h1
+  refine ⟨h1, ?_⟩
+  have := trapzXY_scale (1 + z) 1 w ys
+  rw [h2] at this
+  rw [this]; ring
+
+/-! ### the inverse redshift and `z = 0` -/
+
+/-- `z = 0` is the identity on samples, for both types -/
+theorem sample_z_zero (E : Env K) (t : ZType) (m : Tree K) (x : K) :
+    sampleAt E (ZState.init 0 t) m x = m.eval E x := by
+  rw [sample_law, fluxFactor_zero, map_mul_one, add_zero, div_one]
+
+/-- redshifting by `z` and then, with the same type, by `−z/(1+z)` restores the rest frame on samples -/
+theorem redshift_inverse_sample (E : Env K) (z : K) (hz : 1 + z ≠ 0) (t : ZType) (m m1 : Tree K)
+    (x : K) (h : (ZState.init z t).model m = .ok m1) :
+    sampleAt E (ZState.init (-z / (1 + z)) t) m1 x = m.eval E x := by
+  have h1 : (1 + z) * (1 + -z / (1 + z)) = 1 := by field_simp; ring
+  have h2 : fluxFactor t z * fluxFactor t (-z / (1 + z)) = 1 := by
+    cases t
+    · simp [fluxFactor]
+    · simp only [fluxFactor]
+      rw [one_div_mul_one_div, h1, one_div_one]
+  rw [redshift_compose E z _ t t m m1 x h, h1, h2, div_one, map_mul_one]
+
+/-- … and on the sampling set -/
+theorem redshift_inverse_sampleset (thr z : K) (hz : 1 + z ≠ 0) (t : ZType) (m m1 m2 : Tree K)
+    (h1 : (ZState.init z t).model m = .ok m1)
+    (h2 : (ZState.init (-z / (1 + z)) t).model m1 = .ok m2) :
+    m2.sampleset thr = m.sampleset thr := by
+  have h : (1 + z) * (1 + -z / (1 + z)) = 1 := by field_simp; ring
+  rw [sampleset_redshift_compose thr z _ t t m m1 m2 h1 h2, h]
+  cases m.sampleset thr <;> simp
+
+/-! ### histories that also contain read-only queries -/
+
+/-- the attribute reads and derived queries a program may interleave with the assignments -/
+inductive ZQuery (K : Type)
+  | sample (x : K)          -- `sp(x)`
+  | sampleset (thr : K)     -- `sp.waveset` (before validation)
+  | getZ                    -- `sp.z`
+  | getZType                -- `sp.z_type`
+
+inductive ZAnswer (K : Type)
+  | value (r : Except Err K)
+  | set (r : Except Err (Option (List K)))
+  | z (v : K)
+  | ztype (t : ZType)
+
+inductive ZStep (K : Type)
+  | assign (op : ZOp K)
+  | query (q : ZQuery K)
+
+/-- what a query returns in a given state -/
+def answer (E : Env K) (m : Tree K) (s : ZState K) : ZQuery K → ZAnswer K
+  | .sample x => .value (sampleAt E s m x)
+  | .sampleset thr => .set ((s.model m).map fun t => t.sampleset thr)
+  | .getZ => .z s.z
+  | .getZType => .ztype s.zType
+
+/-- run a history: the final state and the answers of its queries, in order -/
+def runSteps (E : Env K) (m : Tree K) : ZState K → List (ZStep K) → ZState K × List (ZAnswer K)
+  | s, [] => (s, [])
+  | s, .assign op :: rest => runSteps E m (applyOp s op) rest
+  | s, .query q :: rest => ((runSteps E m s rest).1, answer E m s q :: (runSteps E m s rest).2)
+
+/-- the assignments of a history, queries removed -/
+def assignments : List (ZStep K) → List (ZOp K)
+  | [] => []
+  | .assign op :: rest => op :: assignments rest
+  | .query _ :: rest => assignments rest
+
+theorem runSteps_state (E : Env K) (m : Tree K) (s : ZState K) (steps : List (ZStep K)) :
+    (runSteps E m s steps).1 = (assignments steps).foldl applyOp s := by
+  induction steps generalizing s with
+  | nil => rfl
+  | cons st rest ih =>
+    cases st with
+    | assign op => simp only [runSteps, assignments, List.foldl_cons]; exact ih _
+    | query q => simp only [runSteps, assignments]; exact ih _
+
+/-- **queries leave no trace**: the object reached by a history of assignments *and* queries is the
+freshly constructed object with the last valid values — the queries in between do not matter -/
+theorem history_with_queries_state (E : Env K) (m : Tree K) (z0 : K) (t0 : ZType)
+    (steps : List (ZStep K)) :
+    (runSteps E m (ZState.init z0 t0) steps).1 =
+      ZState.init (lastZ z0 (assignments steps)) (lastType t0 (assignments steps)) := by
+  rw [runSteps_state, history_independent]
+
+theorem runSteps_append (E : Env K) (m : Tree K) (s : ZState K) (pre post : List (ZStep K)) :
+    runSteps E m s (pre ++ post) =
+      ((runSteps E m (runSteps E m s pre).1 post).1,
+       (runSteps E m s pre).2 ++ (runSteps E m (runSteps E m s pre).1 post).2) := by
+  induction pre generalizing s with
+  | nil => simp [runSteps]
+  | cons st rest ih =>
+    cases st with
+    | assign op => simp only [List.cons_append, runSteps]; exact ih _
+    | query q => simp only [List.cons_append, runSteps, ih, List.cons_append]
+
+/-- **every answer is memo-free**: a query anywhere in a history is answered exactly as a freshly
+constructed object with the values assigned before it would answer, whatever was assigned or queried
+earlier, and the rest of the history proceeds from that fresh object -/
+theorem history_with_queries_answers (E : Env K) (m : Tree K) (z0 : K) (t0 : ZType)
+    (pre post : List (ZStep K)) (q : ZQuery K) :
+    (runSteps E m (ZState.init z0 t0) (pre ++ .query q :: post)).2 =
+      (runSteps E m (ZState.init z0 t0) pre).2 ++
+        answer E m (ZState.init (lastZ z0 (assignments pre)) (lastType t0 (assignments pre))) q ::
+        (runSteps E m (ZState.init (lastZ z0 (assignments pre)) (lastType t0 (assignments pre))) post).2 := by
+  rw [runSteps_append, history_with_queries_state]
+  rfl
+
+/-- in particular the sample returned at the end of any history is the rest-frame model at
+`L/(1+z)` times the flux factor, for the last assigned `z` and type -/
+theorem history_with_queries_sample (E : Env K) (m : Tree K) (z0 : K) (t0 : ZType)
+    (steps : List (ZStep K)) (x : K) :
+    sampleAt E (runSteps E m (ZState.init z0 t0) steps).1 m x =
+      (m.eval E (x / (1 + lastZ z0 (assignments steps)))).map
+        (· * fluxFactor (lastType t0 (assignments steps)) (lastZ z0 (assignments steps))) := by
+  rw [history_with_queries_state, sample_law]
+
+/-- assigning both attributes, in either order, from *any* state (not only a freshly constructed one)
+gives the freshly constructed state -/
+theorem assign_both_any_state (s : ZState K) (z : K) (t : ZType) :
+    (s.setZType t).setZ z = ZState.init z t ∧ (s.setZ z).setZType t = ZState.init z t :=
+  ⟨setZType_setZ s z t, setZ_setZType s z t⟩
+
+/-! ### non-vacuity of the second round (concrete rational data; a box of height 3 on [4, 6]) -/
+
+private def exM : Tree ℚ := .leaf (.box 3 5 2 (some [4, 5, 6]))
+
+private theorem exM_eval (E : Env ℚ) (x : ℚ) (h : 4 ≤ x ∧ x ≤ 6) : exM.eval E x = .ok 3 := by
+  simp only [exM, Tree.eval, Leaf.eval]
+  rw [if_pos (by constructor <;> linarith [h.1, h.2])]
+
+example (E : Env ℚ) : sampleAt E (ZState.init 1 .conserveFlux) exM 10 = .ok (3 / 2) := by
+  rw [sample_law, exM_eval E _ (by norm_num)]
+  simp [Except.map, fluxFactor]; norm_num
+
+example (E : Env ℚ) : sampleAt E (ZState.init 1 .wavelengthOnly) (modelTree 1 .conserveFlux exM) 20 = .ok (3 / 2) := by
+  rw [redshift_compose E 1 1 .conserveFlux .wavelengthOnly exM _ 20 (model_init _ _ _),
+    exM_eval E _ (by norm_num)]
+  simp [Except.map, fluxFactor]; norm_num
+
+example (E : Env ℚ) : ∃ r, wrapZ ({ kind := .source, tree := exM, zs := ZState.init 1 .conserveFlux } : Spec ℚ) 1
+    .wavelengthOnly = .ok r ∧ r.evalAt E 20 = .ok (3 / 2) := by
+  refine ⟨{ kind := .source, tree := modelTree 1 .conserveFlux exM, zs := ZState.init 1 .wavelengthOnly }, ?_, ?_⟩
+  · simp [wrapZ, Spec.model, model_init, bind, Except.bind, pure, Except.pure]
+  · rw [wrap_redshifted_source E { kind := .source, tree := exM, zs := ZState.init 1 .conserveFlux } _ 1 1
+      .conserveFlux .wavelengthOnly 20 rfl rfl
+      (by simp [wrapZ, Spec.model, model_init, bind, Except.bind, pure, Except.pure])]
+    simp only []
+    rw [exM_eval E _ (by norm_num)]
+    simp [Except.map, fluxFactor]; norm_num
+
+/-- `(sp * 2)` with `z_type = conserve_flux; z = 1` assigned on the product, sampled at 10 -/
+example (E : Env ℚ) : (assignZ (Spec.ofTree .source (.scale exM 2)) 1 .conserveFlux).evalAt E 10 = .ok (6 * (1 / (1 + 1))) :=
+  redshift_of_composite E .mul (Spec.ofTree .source exM) (.real 2) _ 1 .conserveFlux 10 3 2 6
+    (by simp [specOp, typing, resultTree, Spec.ofTree, Spec.model, ZState.model, ZState.init, Operand.tag,
+          exM, bind, Except.bind, pure, Except.pure])
+    rfl
+    (by rw [ofTree_evalAt]; exact exM_eval E _ (by norm_num))
+    rfl (by simp [BinOp.apply]; norm_num)
+
+example : (modelTree 0 .conserveFlux exM).sampleset (1 / 10) = (exM.sampleset (1 / 10)).map (fun w => w.map (· * (1 + 0))) :=
+  sampleset_redshift_any_z _ 0 .conserveFlux exM _ (model_init _ _ _)
+
+example : (modelTree 1 .conserveFlux exM).sampleset (1 / 10) = some [8, 10, 12] := by
+  rw [sampleset_redshift_any_z _ 1 .conserveFlux exM _ (model_init _ _ _)]
+  simp [exM, Tree.sampleset, Leaf.sampleset]; norm_num
+
+example : (modelTree 1 .wavelengthOnly (.bin .add exM (.leaf (.const1 2)))).sampleset (1 / 10) = some [8, 10, 12] := by
+  rw [sampleset_redshift_composite _ 1 .wavelengthOnly .add exM _ _ (model_init _ _ _)]
+  simp [exM, Tree.sampleset, Leaf.sampleset, mergeWavelengths]; norm_num
+
+example : (modelTree 1 .wavelengthOnly (modelTree 1 .conserveFlux exM)).sampleset (1 / 10) = some [16, 20, 24] := by
+  rw [sampleset_redshift_compose _ 1 1 .conserveFlux .wavelengthOnly exM _ _ (model_init _ _ _) (model_init _ _ _)]
+  simp [exM, Tree.sampleset, Leaf.sampleset]; norm_num
+
+/-- a blueshift `z = −1/2` -/
+example : (∀ x ∈ ([4, 5, 6] : List ℚ).map (· * (1 + -1 / 2)), 0 < x) ∧ StrictAsc (([4, 5, 6] : List ℚ).map (· * (1 + -1 / 2))) :=
+  sampleset_redshift_valid (-1 / 2) (by norm_num) _
+    (by intro x hx; simp at hx; rcases hx with rfl | rfl | rfl <;> norm_num)
+    (by simp only [StrictAsc]; norm_num)
+
+example : (modelTree (-1 / 2) .conserveFlux exM).waveset (1 / 10) =
+    (exM.waveset (1 / 10)).map (fun o => o.map (fun w => w.map (· * (1 + -1 / 2)))) :=
+  waveset_redshift _ _ (by norm_num) .conserveFlux exM _ (model_init _ _ _)
+
+example : ((0 : ℚ) < 10 → (0 : ℚ) < 10 / (1 + 1)) ∧ ((10 : ℚ) < 12 → (10 : ℚ) / (1 + 1) < 12 / (1 + 1)) :=
+  rest_wavelength_pos_mono (1 : ℚ) (by norm_num) 10 12
+
+private theorem exM_grid (E : Env ℚ) : ([4, 5, 6] : List ℚ).mapM (exM.eval E) = .ok [3, 3, 3] := by
+  rw [mapM_cons', mapM_cons', mapM_cons', mapM_nil', exM_eval E 4 (by norm_num), exM_eval E 5 (by norm_num),
+    exM_eval E 6 (by norm_num)]
+  rfl
+
+/-- rest-frame integral `trapz([3,3,3], [4,5,6]) = 6`; the `conserve_flux` spectrum at `z = 1` has the
+values `3/2` on `[8, 10, 12]` and the same integral -/
+example (E : Env ℚ) :
+    ([4, 5, 6].map (· * (1 + 1))).mapM ((modelTree 1 .conserveFlux exM).eval E) = .ok ([3, 3, 3].map (· * (1 / (1 + 1)))) ∧
+    trapzXY (([4, 5, 6] : List ℚ).map (· * (1 + 1))) ([3, 3, 3].map (· * (1 / (1 + 1)))) = trapzXY [4, 5, 6] [3, 3, 3] :=
+  integral_conserved_any_grid E 1 (by norm_num) exM _ _ _ (model_init _ _ _) (exM_grid E)
+
+example : trapzXY ([4, 5, 6] : List ℚ) [3, 3, 3] = 6 := by
+  simp [trapzXY, trapz]; norm_num
+
+example (E : Env ℚ) :
+    ([4, 5, 6].map (· * (1 + 1))).mapM ((modelTree 1 .wavelengthOnly exM).eval E) = .ok [3, 3, 3] ∧
+    trapzXY (([4, 5, 6] : List ℚ).map (· * (1 + 1))) [3, 3, 3] = (1 + 1) * trapzXY [4, 5, 6] [3, 3, 3] :=
+  integral_wavelength_only_scales E 1 (by norm_num) exM _ _ _ (model_init _ _ _) (exM_grid E)
+
+example (E : Env ℚ) : sampleAt E (ZState.init 0 .conserveFlux) exM 5 = .ok 3 := by
+  rw [sample_z_zero]; exact exM_eval E 5 (by norm_num)
+
+/-- `z = 1` then `z = −1/2` (both `conserve_flux`): back to the rest frame -/
+example (E : Env ℚ) : sampleAt E (ZState.init (-1 / (1 + 1)) .conserveFlux) (modelTree 1 .conserveFlux exM) 5 = .ok 3 := by
+  rw [redshift_inverse_sample E 1 (by norm_num) .conserveFlux exM _ 5 (model_init _ _ _)]
+  exact exM_eval E 5 (by norm_num)
+
+example : (modelTree (-1 / (1 + 1)) .conserveFlux (modelTree 1 .conserveFlux exM)).sampleset (1 / 10) = some [4, 5, 6] := by
+  rw [redshift_inverse_sampleset _ 1 (by norm_num) .conserveFlux exM _ _ (model_init _ _ _) (model_init _ _ _)]
+  rfl
+
+private def exHist : List (ZStep ℚ) :=
+  [.assign (.setZ 1), .query (.sample 10), .assign (.setZType .conserveFlux), .query .getZ, .assign .setZBad,
+   .query (.sampleset (1 / 10))]
+
+example (E : Env ℚ) : (runSteps E exM (ZState.init 0 .wavelengthOnly) exHist).1 = ZState.init 1 .conserveFlux :=
+  history_with_queries_state E exM 0 .wavelengthOnly exHist
+
+/-- the last query of `exHist` is answered as the fresh object `(z = 1, conserve_flux)` answers it -/
+example (E : Env ℚ) :
+    (runSteps E exM (ZState.init 0 .wavelengthOnly) exHist).2 =
+      (runSteps E exM (ZState.init 0 .wavelengthOnly) (exHist.take 5)).2 ++
+        [answer E exM (ZState.init 1 .conserveFlux) (.sampleset (1 / 10))] :=
+  history_with_queries_answers E exM 0 .wavelengthOnly (exHist.take 5) [] (.sampleset (1 / 10))
+
+example (E : Env ℚ) : sampleAt E (runSteps E exM (ZState.init 0 .wavelengthOnly) exHist).1 exM 10 = .ok (3 / 2) := by
+  rw [history_with_queries_sample]
+  simp only [exHist, assignments, lastZ, lastType]
+  rw [exM_eval E _ (by norm_num)]
+  simp [Except.map, fluxFactor]; norm_num
+
+/-- from an inconsistent state (flux model left over from another type) both orders repair it -/
+example : (({ z := 5, zType := .wavelengthOnly, fluxScale := some 7 } : ZState ℚ).setZType .conserveFlux).setZ 1
+    = ZState.init 1 .conserveFlux :=
+  (assign_both_any_state _ 1 .conserveFlux).1
+
+/-- the same over the optimal sampling sets, the way `integrate()` samples: the redshifted spectrum's
+own sampling set is the rest-frame set times `1+z`, and the trapezoid integral over it is the rest-frame
+integral over the rest-frame set -/
+theorem integral_conserved_on_waveset (E : Env K) (thr z : K) (hz : 1 + z ≠ 0) (m mt : Tree K)
+    (w ys : List K) (hm : (ZState.init z .conserveFlux).model m = .ok mt)
+    (hw : m.sampleset thr = some w) (hy : w.mapM (m.eval E) = .ok ys) :
+    ∃ w' ys', mt.sampleset thr = some w' ∧ w'.mapM (mt.eval E) = .ok ys' ∧
+      trapzXY w' ys' = trapzXY w ys := by
+  obtain ⟨h1, h2⟩ := integral_conserved_any_grid E z hz m mt w ys hm hy
+  refine ⟨w.map (· * (1 + z)), ys.map (· * (1 / (1 + z))), ?_, h1, h2⟩
+  rw [sampleset_redshift_any_z thr z .conserveFlux m mt hm, hw]
+  rfl
+
+example (E : Env ℚ) : ∃ w' ys', (modelTree 1 .conserveFlux exM).sampleset (1 / 10) = some w' ∧
+    w'.mapM ((modelTree 1 .conserveFlux exM).eval E) = .ok ys' ∧ trapzXY w' ys' = trapzXY [4, 5, 6] [3, 3, 3] :=
+  integral_conserved_on_waveset E (1 / 10) 1 (by norm_num) exM _ _ _ (model_init _ _ _) rfl (exM_grid E)
 
 end Synphot.C05
